@@ -6,6 +6,7 @@ import (
 	"strconv"
 	"strings"
 
+	"github.com/evolbioinfo/gotree/io/nextstrain"
 	"github.com/evolbioinfo/gotree/io/nexus"
 	"github.com/evolbioinfo/gotree/io/phyloxml"
 	"github.com/evolbioinfo/gotree/io/utils"
@@ -312,5 +313,58 @@ func H_C13_phyloxml_writer() {
 	for i := 0; i < k && i < len(got); i++ {
 		c01same(src[i].Root(), nil, got[i].Root(), nil, nil, nil)
 	}
+	sxReach("checked")
+}
+
+// ---------------------------------------------------------------------------
+// Nextstrain: decoded documents (the json decoder itself is not encoded).
+
+func c13nsnode(nd, parent *tree.Node, div float64) nextstrain.NsNode {
+	c := nextstrain.NsNode{Name: nd.Name()}
+	c.Attributes.Divergence = div
+	for i, ch := range nd.Neigh() {
+		if ch != parent {
+			c.Children = append(c.Children, c13nsnode(ch, nd, div+nd.Edges()[i].Length()))
+		}
+	}
+	return c
+}
+
+// H_C13_nextstrain: a decoded Nextstrain document converts to the tree it
+// describes (shape, names, branch length = difference of divergences) and
+// FirstTree gives the tree IterateTrees delivers; delivered trees can be used.
+func H_C13_nextstrain() {
+	n := sxParam("n", 4)
+	t := genTree(n, 2, false)
+	decorate(t, lenAll, supNone)
+	rootdiv := sxLen("rootdiv")
+	sxAssume(rootdiv >= 0)
+	ns := &nextstrain.Nextstrain{Version: "v2", Tree: c13nsnode(t.Root(), nil, rootdiv)}
+	sxReach("ready")
+	var it *tree.Tree
+	cnt := 0
+	ns.IterateTrees(func(tr *tree.Tree, err error) {
+		sxAssert(err == nil, "document converts")
+		it = tr
+		cnt++
+	})
+	sxAssert(cnt == 1 && it != nil, "one tree delivered")
+	first, err := ns.FirstTree()
+	sxAssert(err == nil && first != nil, "FirstTree delivers the tree")
+	if it == nil || first == nil {
+		return
+	}
+	sxAssert(c03sameShape(t.Root(), nil, it.Root(), nil), "same shape and names")
+	sxAssert(c03sameShape(it.Root(), nil, first.Root(), nil), "FirstTree = first tree of IterateTrees")
+	want := distOf(t, n, lenMetric0)
+	got := distOf(it, n, lenMetric0)
+	got2 := distOf(first, n, lenMetric0)
+	for i := 0; i < n; i++ {
+		for j := 0; j < n; j++ {
+			sxAssert(got[i][j] == want[i][j], "branch lengths = differences of divergences")
+			sxAssert(got2[i][j] == want[i][j], "FirstTree has the same lengths")
+		}
+	}
+	c02use(it)
 	sxReach("checked")
 }
